@@ -128,7 +128,7 @@ def rule_R05_4(ctx):
                    "returning an operand's cell makes later mutations of the "
                    "result visible through the operand")
     ident = set(prov.IDENTITY_CALLS) - {"std::sync::Arc::<T>::new", "std::sync::Mutex::<T>::new"}
-    pv = prov.Prov(prog, identity=ident, foreign="stop")
+    pv = prov.Prov(prog, identity=ident, foreign="stop", field_based=False, follow_params=False)
     # expression evaluator: switches on a RawExpr parameter and returns SourcedValue
     evs = []
     for f in prog.hand_fns():
@@ -175,6 +175,37 @@ def rule_R05_4(ctx):
                            where=mir.span_loc(sp))
         if not found:
             r.unproven.append("arm %s: no direct Ok(..) return found" % arm)
+    # list `+` (and `+=`, which shares the operator function): the result
+    # cell is freshly allocated for every pair of list operands
+    cands = ops.find_operator_fn(prog)
+    if len(cands) == 1:
+        of, op_p, lhs_p, rhs_p = cands[0]
+        pt = ops.PairTable(prog, of, [(op_p, "ast::BinaryOp"), (lhs_p, VALUE), (rhs_p, VALUE)])
+        tup = ("Sum", "List", "List")
+        n_ret = 0
+        for bb, i, pl, kd, aops, sp in of.aggregates("std::result::Result", "Ok"):
+            if pl[0] != 0 or tup not in pt.vf.at(bb) or len(pt.vf.at(bb)) > 3:
+                continue
+            n_ret += 1
+            pi = (("d", "List"), ("f", 0, VALUE, "List"))
+            o = pv.origins(of, aops[0], pi)
+            arcs = [x for x in o if x[0] == "call" and x[3] == "std::sync::Arc::<T>::new"]
+            others = [x for x in o if not (x[0] == "call" and x[3] == "std::sync::Arc::<T>::new")
+                      and x[0] not in ("const",)]
+            r.inst("%s: list + returns a cell from %d Arc::new, others %s"
+                   % (of.path, len(arcs), sorted(set((x[0], x[3] if x[0] == "call" else x[1]) for x in others))[:3]))
+            if any(x[0] == "unknown" for x in o):
+                r.unproven.append("%s: origin of the list + result not fully resolved" % of.path)
+            elif arcs and not others:
+                r.ok()
+            else:
+                r.fail("%s | list concatenation returns an existing cell" % of.path,
+                       "`+` on two lists can return a list whose cell was "
+                       "not allocated for the result (origins: %s): the "
+                       "result aliases an operand"
+                       % sorted(set(str(x[:4]) for x in others))[:3], where=mir.span_loc(sp))
+        if not n_ret:
+            r.unproven.append("%s: no return specific to list + found" % of.path)
     return r
 
 
